@@ -483,7 +483,7 @@ def thewalrus_kw(ctx, rule, rel, decls: Dict[str, dict]):
     m = ctx.tree.module(rel)
     for qn, f in sorted(m.functions.items()):
         if not any(isinstance(x, ast.Call) and _is_thewalrus(ctx.tree, m, x) for x in walk_no_nested(f.node)) \
-                and qn not in decls:
+                and qn not in decls and qn not in decls.get("__returns__", {}):
             continue
         decl = dict(decls.get("*", {}))
         decl.update(decls.get(qn, {}))
@@ -491,6 +491,15 @@ def thewalrus_kw(ctx, rule, rel, decls: Dict[str, dict]):
         ev = DimEval(f, decl, cd)
         _run(ev)
         n = 0
+        # a function with a declared return power: every return agrees with it (sums inside are unified by the evaluator)
+        want = decls.get("__returns__", {}).get(qn)
+        if want is not None and not isinstance(want, tuple):
+            for nd in ev.rd.cfg.nodes:
+                if nd.kind == "stmt" and isinstance(nd.ast, ast.Return) and nd.ast.value is not None:
+                    n += 1
+                    d = ev.ev(nd.ast.value, nd.id)
+                    if d not in (TOP, ANY) and d != want:
+                        ev.conflicts.append(_conf(nd.ast, f"{qn} returns a quantity of another power of hbar than documented", d, want))
         for nd in ev.rd.cfg.nodes:
             if nd.ast is None:
                 continue
